@@ -160,6 +160,8 @@ def wl_random(ctx, rng, case):
     import probables as P
 
     keys = gen.universe(rng, 6)
+    if case.index % 10 == 4:
+        keys = keys[:4] + ["L" * rng.choice([1000, 4096, 5000]), bytes(rng.getrandbits(8) for _ in range(rng.choice([1024, 3000])))]  # long keys
     case.desc = {"keys": keys}
     strat = strategies()
     for k in keys:
